@@ -70,6 +70,10 @@ func NewPluggableConsensus(cCtx cctx.ConsensusCtx) (ConsensusInterface, error) {
 		return nil, err
 	}
 	res, err := xMReader.Get(contractBucket, []byte(consensusKey))
+	if err != nil {
+		// 读不出共识升级历史时不能当作"从未升级过"处理, 否则重启后只会吊起创世共识, 接受已被取代的出块人的区块
+		return nil, err
+	}
 	// 若合约存储不存在，则证明为第一次吊起创建实例，则直接从账本里拿到创始块配置，并且声称从未初始化过的共识实例Genesis共识实例
 	if res == nil {
 		consensusBuf, err := cCtx.Ledger.GetConsensusConf()
